@@ -128,6 +128,7 @@ func c14(c *core.Ctx) {
 	}
 	c.Rule("C14.direction", "in every symmetric constructor the send side (encrypt, signature) takes its keys from generateKeys(HMAC{Secret: remoteNonce}, seed = localNonce) and the receive side (decrypt, verifySignature) from generateKeys(HMAC{Secret: localNonce}, seed = remoteNonce): two different calls with swapped (secret, seed); .signing feeds HMAC secrets, .encryption the AES key, .iv the AES IV", 20)
 	c.Rule("C14.table", "per policy, the derived key lengths, block size, signature length, AES key size and the hash used for derivation and for the symmetric signature equal the Part 7 profile table", 5)
+	c14FreshMode(c)
 	c.Rule("C14.layout", "generateKeys slices the derived bytes at [0:sig], [sig:sig+enc], [sig+enc:sig+enc+iv] in the order signing, encryption, IV, and derives at least sig+enc+iv bytes", 3)
 
 	n := 0
